@@ -465,7 +465,10 @@ pub(crate) fn checking_with_capacity_nostop<T>(capacity: usize) -> Vec<T> {
         assert!(false, "single reservation <= 64 MiB + 8192 * input bytes");
         kani::assume(false);
     }
-    Vec::new()
+    // within the bound: serve the request for real (callers may rely on the capacity); the sizes that reach this
+    // point on the unchanged tree are concrete
+    let v: Vec<T> = Vec::with_capacity_in(capacity, std::alloc::Global);
+    v
 }
 /// `vec![elem; n]`: checks the bound; a request above it ends the path as a failure, a request within it is served
 /// (n is concrete on the unchanged tree at the sites these harnesses reach)
